@@ -2,9 +2,10 @@ import MxModel.Proofs.StructMechEffect
 /-!
 # Only valid names ever become names (C11)
 
-`NamesOK kw st`: every component of every space id, every name with a definition (cells or reference)
-and every model-level reference is a valid name (`Names.isValidName kw`: an identifier, not a keyword, not
-starting with an underscore).  With `Inv` (a member that is there is defined somewhere along the
+`NamesOK kw st`: every component of every space id and every name with a definition (cells or reference)
+is a valid name (`Names.isValidName kw`: an identifier, not a keyword, not starting with an underscore).
+NOT the model-level references: `model.name = value` (`ModelImpl.set_attr`) tests no name, `model._x = 1`
+is accepted by the code (`St.setGlobal`), so nothing can be said about their names.  With `Inv` (a member that is there is defined somewhere along the
 linearisation) the same holds for every member, derived or not.  Preserved by every accepted operation:
 each creating operation checks the name it introduces (`new_cells` the name the cells GETS), everything
 else only moves or removes names - read off `apply_spec`.
@@ -15,7 +16,6 @@ open MxModel.C3
 structure NamesOK (kw : List String) (st : St) : Prop where
   ids : ∀ q ∈ st.ids, ∀ c ∈ q, Names.isValidName kw c = true
   defs : ∀ a q n, (st.defd a q n).isSome = true → Names.isValidName kw n = true
-  globals : ∀ n ∈ st.globals, Names.isValidName kw n = true
 
 /-- … hence every member name, derived ones included -/
 theorem NamesOK.mems {kw : List String} {st : St} (hn : NamesOK kw st) (h : Inv st) (a : Attr) (q : Path)
@@ -33,11 +33,10 @@ theorem NamesOK.mems {kw : List String} {st : St} (hn : NamesOK kw st) (h : Inv 
       exact hn.defs a d.1 n (by rw [h2]; rfl)
 
 theorem namesOK_empty (kw : List String) : NamesOK kw ({} : St) := by
-  refine ⟨?_, ?_, ?_⟩
+  refine ⟨?_, ?_⟩
   · intro q hq; cases hq
   · intro a q n hd
     rw [St.defd_of_not_mem _ a q n (by simp [St.ids])] at hd; cases hd
-  · intro n hn; cases hn
 
 theorem setRefs_valid (kw : List String) (p : Path) (refs : List (String × Nat)) :
     ∀ (st st' : St), st.setRefs kw p refs = some st' → ∀ e ∈ refs, Names.isValidName kw e.1 = true := by
@@ -82,17 +81,16 @@ theorem namesOK_apply (kw : List String) (st st' : St) (op : Op) (h : Inv st) (h
   have hdefines : ∀ (a : Attr) (p : Path) (name : String) (v : Nat), Shape st st' → Defines st st' a p name v →
       Names.isValidName kw name = true → NamesOK kw st' := by
     intro a p name v hs hd hv
-    refine ⟨by rw [hs.ids]; exact hn.ids, ?_, by rw [hs.globals]; exact hn.globals⟩
+    refine ⟨by rw [hs.ids]; exact hn.ids, ?_⟩
     intro a' q n' hd'
     rw [hd a' q n'] at hd'
     split at hd'
     · rename_i hc; rw [hc.2.2]; exact hv
     · exact hn.defs a' q n' hd'
   have hsub : (∀ q ∈ st'.ids, q ∈ st.ids) → (∀ a q n, (st'.defd a q n).isSome = true → (st.defd a q n).isSome = true) →
-      (∀ n ∈ st'.globals, n ∈ st.globals) → NamesOK kw st' := by
-    intro h1 h2 h3
-    exact ⟨fun q hq => hn.ids q (h1 q hq), fun a q n hd => hn.defs a q n (h2 a q n hd),
-      fun n hg => hn.globals n (h3 n hg)⟩
+      NamesOK kw st' := by
+    intro h1 h2
+    exact ⟨fun q hq => hn.ids q (h1 q hq), fun a q n hd => hn.defs a q n (h2 a q n hd)⟩
   cases op with
   | newSpace parent name bases refs =>
     obtain ⟨hfresh, hids, hglob, _, hdefs⟩ := E
@@ -101,7 +99,7 @@ theorem namesOK_apply (kw : List String) (st st' : St) (op : Op) (h : Inv st) (h
     unfold St.acceptsNewSpace at hacc1
     simp only [Bool.and_eq_true, Bool.or_eq_true, beq_iff_eq] at hacc1
     obtain ⟨⟨⟨⟨hpar, _⟩, _⟩, hvalid⟩, _⟩ := hacc1
-    refine ⟨?_, ?_, by rw [hglob]; exact hn.globals⟩
+    refine ⟨?_, ?_⟩
     · intro q hq c hc
       rw [hids, List.mem_append, List.mem_singleton] at hq
       rcases hq with hq | rfl
@@ -134,7 +132,6 @@ theorem namesOK_apply (kw : List String) (st st' : St) (op : Op) (h : Inv st) (h
       split at hd
       · cases hd
       · exact hd
-    · intro n hg; rw [E.globals] at hg; exact hg
   | newCells p name fname v =>
     simp only [St.accepts] at hacc
     unfold St.acceptsNewCells at hacc
@@ -151,13 +148,12 @@ theorem namesOK_apply (kw : List String) (st st' : St) (op : Op) (h : Inv st) (h
       split at hd
       · cases hd
       · exact hd
-    · intro n hg; rw [E.1.globals] at hg; exact hg
   | renameCells p old new =>
     simp only [St.accepts] at hacc
     unfold St.acceptsRename at hacc
     simp only [Bool.and_eq_true] at hacc
     obtain ⟨⟨⟨hold, hnew⟩, _⟩, _⟩ := hacc
-    refine ⟨by rw [E.1.ids]; exact hn.ids, ?_, by rw [E.1.globals]; exact hn.globals⟩
+    refine ⟨by rw [E.1.ids]; exact hn.ids, ?_⟩
     intro a q n hd
     by_cases hc : a = .refs ∨ (n ≠ old ∧ n ≠ new)
     · rw [E.2 a q n hc] at hd; exact hn.defs a q n hd
@@ -171,12 +167,10 @@ theorem namesOK_apply (kw : List String) (st st' : St) (op : Op) (h : Inv st) (h
     apply hsub
     · intro q hq; rw [E.ids] at hq; exact hq
     · intro a q n hd; rw [E.defs a q n] at hd; exact hd
-    · intro n hg; rw [E.globals] at hg; exact hg
   | removeBases p bs =>
     apply hsub
     · intro q hq; rw [E.ids] at hq; exact hq
     · intro a q n hd; rw [E.defs a q n] at hd; exact hd
-    · intro n hg; rw [E.globals] at hg; exact hg
   | setRef p name v =>
     simp only [St.accepts] at hacc
     unfold St.acceptsSetRef at hacc
@@ -190,27 +184,18 @@ theorem namesOK_apply (kw : List String) (st st' : St) (op : Op) (h : Inv st) (h
       split at hd
       · cases hd
       · exact hd
-    · intro n hg; rw [E.1.globals] at hg; exact hg
   | setGlobal name =>
-    simp only [St.accepts] at hacc
-    unfold St.acceptsSetGlobal at hacc
-    simp only [Bool.and_eq_true] at hacc
     have hsp : ∀ a q n, st'.defd a q n = st.defd a q n := by
       intro a q n; unfold St.defd St.mem St.find; rw [E.1]
-    refine ⟨?_, ?_, ?_⟩
+    refine ⟨?_, ?_⟩
     · intro q hq; unfold St.ids at hq; rw [E.1] at hq; exact hn.ids q hq
     · intro a q n hd; rw [hsp] at hd; exact hn.defs a q n hd
-    · intro n hg
-      rcases (E.2 n).mp hg with h1 | rfl
-      · exact hn.globals n h1
-      · exact hacc.2
   | delGlobal name =>
     have hsp : ∀ a q n, st'.defd a q n = st.defd a q n := by
       intro a q n; unfold St.defd St.mem St.find; rw [E.1]
-    refine ⟨?_, ?_, ?_⟩
+    refine ⟨?_, ?_⟩
     · intro q hq; unfold St.ids at hq; rw [E.1] at hq; exact hn.ids q hq
     · intro a q n hd; rw [hsp] at hd; exact hn.defs a q n hd
-    · intro n hg; exact hn.globals n ((E.2 n).mp hg).1
 
 /-- the invariant of the mechanism with the name clause (C11: "only valid identifiers not starting with
 an underscore ever become names") -/
